@@ -2,10 +2,18 @@
 
 Correspondence: the Lean model (Model/Measure.lean, executed at K = Q on the exact rational value of
 every double the implementation receives) returns the exact *arguments* of the final transcendental
-step (d^2; (dot, nn) for arccos; (XN, Y, N) for arctan2).  The transcendental step itself
-(sqrt / arccos / arctan2 / degrees) is evaluated here in Python on those exact arguments and compared
-with the implementation's float result under a stated tolerance (1e-9).  guess_connectivity is compared
-exactly (pairs within 1e-9 of the cutoff are never generated).
+step (d^2; (dot, nn) for arccos; (XN, Y, N) for arctan2).  The real-valued measurements themselves
+(sqrt / arccos / arctan2 / degrees applied to those arguments exactly as the code applies numpy's) are
+defined and proved about over R in Props/C18Real.lean, including the closed forms
+distR = sqrt(d^2), angleR = atan2(sqrt(nn - dot^2), -dot), dihedralR = atan2(Y sqrt(N), XN)
+(theorems distR_textbook, angleR_eq_args, dihedralR_eq_args).  What remains run-time is libm's / numpy's
+floating-point approximation of these real functions: the closed forms are evaluated here in Python on the
+driver's exact arguments and compared with the implementation's float result under a stated tolerance (1e-9).
+guess_connectivity is compared exactly (pairs within 1e-9 of the cutoff are never generated), twice: with the
+radii handed over next to the points (Driver/C18.lean) and from the *symbols*, the radii coming from the
+radius / periodic tables that tools/gen_radii.py, tools/gen_periodic.py regenerate from the source tree on
+every run, pushed through C17's model of CovalentRadii.get and the model of the look-up loop
+connectivity.py:37-42 (Model/MeasureRadii.lean, Driver/C18Radii.lean).
 
 Oracle (independent of the model): textbook formulas evaluated with exact rationals + one libm call,
 rigid-motion invariance (exact rational motions from integer quaternions / Householder reflections,
@@ -19,16 +27,29 @@ from __future__ import annotations
 
 import json
 import math
+import sys
 import warnings
 from fractions import Fraction as Fr
 
 import numpy as np
 
+import common
 from common import Ctx, Finding, Outcome
 
+sys.path.insert(0, str(common.VERIF / "tools"))
+import gen_periodic  # noqa: E402  (read-only use of C01's / C17's translators)
+import gen_radii  # noqa: E402
+
 PROPERTY = "C18"
-LEAN_TARGETS = ["QcelVerif.Props.C18", "QcelVerif.Driver.C18"]
+LEAN_TARGETS = [
+    "QcelVerif.Props.C18", "QcelVerif.Driver.C18",
+    "QcelVerif.Lemmas.MeasureReal", "QcelVerif.Props.C18Real", "QcelVerif.Props.C18Euclid",
+    "QcelVerif.Model.MeasureRadii", "QcelVerif.Lemmas.MeasureRadii", "QcelVerif.Props.C18Radii", "QcelVerif.Driver.C18Radii",
+]
 DRIVER = "QcelVerif/Driver/C18.lean"
+DRIVER_RADII = "QcelVerif/Driver/C18Radii.lean"
+# Gen/Radii.lean and Gen/PT.lean are rewritten from QCEL_REPO's data files before every build
+TRANSLATORS = [gen_periodic.main, gen_radii.main]
 THEOREMS = [
     ("QcelVerif.Measure.dist_rigid_invariant", "squared distance is unchanged by p -> R p + t for every orthogonal R (R R^T = I), any translation"),
     ("QcelVerif.Measure.angle_args_rigid_invariant", "the (dot, norm-product) pair feeding arccos is unchanged by every orthogonal motion"),
@@ -51,18 +72,59 @@ THEOREMS = [
     ("QcelVerif.Measure.forms_agree_measure", "index-based measure_coordinates of 2/3/4 valid indices = distance/angle/dihedral arguments of the picked points"),
     ("QcelVerif.Measure.quatRot_isRotation", "the rational matrix U(q)/|q|^2 of any non-null quaternion is a proper rotation (R R^T = I, det = 1)"),
     ("QcelVerif.Measure.householder_isReflection", "I - 2hh^T/|h|^2 is orthogonal with det = -1"),
+    # ---- over R, through the transcendental step (Props/C18Real.lean); atan2 y x := Complex.arg (x + y i) in (-pi, pi]
+    ("QcelVerif.Measure.atan2_cases", "the model's atan2 y x = arg(x + y i) lies in (-pi, pi] and obeys the usual arctan2 case table: arctan(y/x) for x>0; +pi for x<0<=y; -pi for x<0,y<0; +-pi/2 on the axis x=0; 0 at the origin"),
+    ("QcelVerif.Measure.distR_range", "distR = sqrt(d^2) >= 0, = 0 iff the two points coincide, symmetric"),
+    ("QcelVerif.Measure.distR_textbook", "distR = sqrt(dx^2 + dy^2 + dz^2) and distR^2 = the driver's d^2"),
+    ("QcelVerif.Measure.distR_rigid_invariant", "distR is unchanged by p -> R p + t for every orthogonal R (every proper rigid motion and every reflection)"),
+    ("QcelVerif.Measure.angleR_range", "angleR = pi - arccos(clip(v12.v23/(|v12||v23|), -1, 1)) as coded lies in [0, pi] (all inputs of the model)"),
+    ("QcelVerif.Measure.angleR_textbook", "distinct points: angleR = arccos((p1-p2).(p3-p2)/(|p1-p2||p3-p2|)) and cos(angleR) is that normalised dot product of the two bond vectors"),
+    ("QcelVerif.Measure.angleR_textbook_atan2", "distinct points: angleR = atan2(|a x b|, a.b), a = p1-p2, b = p3-p2 (the oracle's textbook form)"),
+    ("QcelVerif.Measure.angleR_eq_args", "distinct points: angleR = atan2(sqrt(nn - dot^2), -dot) of the driver's exact pair (dot, nn) — the closed form the harness evaluates"),
+    ("QcelVerif.Measure.angleR_rigid_invariant", "angleR is unchanged by every orthogonal motion of the three points (all inputs of the model)"),
+    ("QcelVerif.Measure.angleR_reversal", "angleR(p3,p2,p1) = angleR(p1,p2,p3)"),
+    ("QcelVerif.Measure.dihedralR_range", "dihedralR = atan2(y, x) of the coded (x, y) lies in (-pi, pi], a subset of the stated [-pi, pi]; -pi itself is reached by numpy only through IEEE -0.0 (outside the real model)"),
+    ("QcelVerif.Measure.dihedralR_rigid_invariant", "dihedralR is unchanged by every proper rigid motion (R R^T = I, det R = 1, any translation), all inputs of the model"),
+    ("QcelVerif.Measure.dihedralR_reflection", "under an improper orthogonal map dihedralR' = -dihedralR, except that the value pi (planar trans: y = 0, x < 0) stays pi"),
+    ("QcelVerif.Measure.dihedralR_reflection_neg", "improper orthogonal map and dihedralR != pi: dihedralR' = -dihedralR exactly"),
+    ("QcelVerif.Measure.dihedralR_reflection_mod_two_pi", "improper orthogonal map: dihedralR' = -dihedralR + 2 pi k for an integer k (sign flip modulo 2 pi, no exception)"),
+    ("QcelVerif.Measure.dihedralR_eq_pi_iff", "p2 != p3: dihedralR = pi iff b1.(b2xb3) = 0 and (b1xb2).(b2xb3) < 0 (the branch-cut edge is exactly the planar trans arrangement)"),
+    ("QcelVerif.Measure.dihedralR_reversal", "dihedralR(p4,p3,p2,p1) = dihedralR(p1,p2,p3,p4) (all inputs of the model)"),
+    ("QcelVerif.Measure.dihedralR_textbook", "p2 != p3: dihedralR = atan2(|b2| b1.(b2xb3), (b1xb2).(b2xb3)), the IUPAC signed angle between the half-planes in atan2 form"),
+    ("QcelVerif.Measure.dihedralR_cos_sin", "no collinear triple: cos(dihedralR) = n1.n2/(|n1||n2|) and sin(dihedralR) = |b2| b1.n2/(|n1||n2|), n1 = b1xb2, n2 = b2xb3"),
+    ("QcelVerif.Measure.dihedralR_unique", "no collinear triple: every theta in (-pi, pi] with that cosine and sine equals dihedralR (it IS the textbook signed angle)"),
+    ("QcelVerif.Measure.dihedralR_eq_args", "p2 != p3: dihedralR = atan2(Y sqrt(N), XN) of the driver's exact triple (XN, Y, N) — the closed form the harness evaluates"),
+    ("QcelVerif.Measure.forms_agree_real", "index-based measure_coordinates of 2/3/4 valid indices, its printed arguments evaluated by the harness's closed forms (Meas.valR), = distR / angleR / dihedralR of the picked points (distinct neighbours)"),
+    ("QcelVerif.Measure.degrees_spec", "degrees=True gives radians * 180/pi (and * pi/180 gives the radians back); hence angle in [0, 180], dihedral in (-180, 180]"),
+    ("QcelVerif.Measure.degrees_rigid_invariant", "the degrees=True variants of angle and dihedral are unchanged by every proper rigid motion"),
+    # ---- against Mathlib's own Euclidean geometry (Props/C18Euclid.lean); points embedded in EuclideanSpace R (Fin 3)
+    ("QcelVerif.Measure.distR_eq_euclidean_dist", "distR p q = dist of the two points in Mathlib's EuclideanSpace R (Fin 3)"),
+    ("QcelVerif.Measure.angleR_eq_euclidean_angle", "distinct points: angleR p1 p2 p3 = Mathlib's unoriented angle EuclideanGeometry.angle p1 p2 p3 at the vertex p2"),
+    # ---- guess_connectivity from symbols (Props/C18Radii.lean)
+    ("QcelVerif.Measure.connRadius_spec", "ANY tables: the radius used for a symbol is 1.8 if nothing identifies it (except branch), 1.8 if identified without tabulated radius (missing=1.8), else fl(factor * float(tabulated decimal)) in bohr; a failing unit conversion escapes"),
+    ("QcelVerif.Measure.connectivity_sym_exact", "from symbols: (i, j) listed <-> i < j, both rows exist, 0 < (r(si)+r(sj))*thr and d2 < ((r(si)+r(sj))*thr)^2, r = the radius look-up"),
+    ("QcelVerif.Measure.connectivity_sym_rigid_invariant", "from symbols: the result (including whether a look-up raises) is unchanged by every orthogonal motion of the geometry"),
 ]
 TRUSTED_BASE = [
-    "Lean 4.33 kernel + Mathlib (ring/linear_combination/field_simp); axioms per theorem audited on every run",
-    "hand-written model Model/Measure.lean of util/misc.py:10-19,137-320 and molutil/connectivity.py:37-62, tied by differential correspondence on the generated stream",
-    "libm sqrt/acos/atan2 and numpy's elementwise float arithmetic: the last step (sqrt, arccos, arctan2, degrees) is NOT modelled; it is evaluated in Python on the model's exact arguments and compared at 1e-9",
-    "covalent radii values are taken from qcelemental.covalentradii (property C17's subject); the fallback 1.8 bohr for unknown symbols is treated as documented behaviour",
+    "Lean 4.33 kernel + Mathlib (ring/linear_combination/field_simp; over R additionally Real.sqrt, Real.arccos, Complex.arg and their Mathlib theory); axioms per theorem audited on every run",
+    "hand-written model Model/Measure.lean of util/misc.py:10-19,137-320 and molutil/connectivity.py:44-62, and Model/MeasureRadii.lean of connectivity.py:37-42, tied by differential correspondence on the generated stream",
+    "the real-valued measurements distR / angleR / dihedralR / degrees of Props/C18Real.lean are hand-written transcriptions of the last lines of compute_distance / compute_angle / compute_dihedral "
+    "(np.sqrt -> Real.sqrt, np.arccos -> Real.arccos, np.clip -> min/max, np.arctan2(y, x) -> Complex.arg (x + y i), np.degrees -> * 180/pi, np.pi -> Real.pi)",
+    "libm / numpy floating point: that np.sqrt, np.arccos, np.arctan2, np.degrees, np.pi and the elementwise float +,-,*,/ approximate those real functions is NOT proved; "
+    "it is checked at run time by evaluating the proved closed forms (sqrt d2; atan2(sqrt(nn-dot^2), -dot); atan2(Y sqrt N, XN)) in Python (math.sqrt / math.atan2, i.e. libm again) on the model's exact rational arguments and comparing with the implementation at 1e-9",
+    "IEEE signed zero, NaN and infinities are outside the real-number model: np.arctan2(-0.0, x<0) = -pi where the real atan2 gives +pi (same geometric angle; the oracle compares dihedrals modulo 2 pi and demands the closed range [-pi, pi]); x/0 is 0 in Lean and nan in numpy (degenerate inputs, outside the quantifier)",
+    "covalent radii: REGENERATED FROM SOURCE — tools/gen_radii.py and tools/gen_periodic.py (C17's / C01's translators, used read-only) re-encode qcelemental/data/alvarez_2008_covalent_radii.py and nist_2011_atomic_weights.py on every run; "
+    "C17's model of CovalentRadii.get (Model/Radii.lean, its own correspondence is C17's check) and Model/MeasureRadii.lean turn a symbol into the radius; every radius the run touches is compared exactly (as rationals of doubles) with what the implementation's covalentradii returns, and the bond list from symbols is compared exactly with guess_connectivity",
+    "the unit factor angstrom -> bohr (constants.conversion_factor: pint, C03's territory) is a PARAMETER: it is read once from the implementation and handed to the model; the fallback 1.8 bohr for unknown / radius-less symbols is modelled as coded (connectivity.py:39,41)",
     "harness/c18.py generators and the Python oracle",
 ]
 ASSUMPTIONS = [
     "points are non-degenerate as the quantifier says: pairwise distance >= 0.1, and for 'general position' cases sin^2 of every bond angle that defines a plane >= 1e-4 (a separate exactly-collinear stream checks angle in {0, pi} at 1e-6)",
-    "bond pairs whose distance is within 1e-9 of (ri+rj)*thr are excluded from generation; thresholds are positive",
-    "symbols and geometry have equal length; inputs are finite doubles; indices are Python ints",
+    "the theorems over R that state textbook agreement carry exactly these non-degeneracy hypotheses (p1 != p2, p3 != p2 for the angle; p2 != p3, resp. no collinear triple, for the dihedral); range, invariance and reversal theorems hold for all inputs of the real model, "
+    "which on degenerate inputs (division by zero) is NOT the implementation (Lean x/0 = 0, numpy nan)",
+    "the real model has no signed zero: on the exactly planar trans arrangement the implementation may return -pi (through -0.0) where dihedralR = +pi; dihedrals are therefore compared modulo 2 pi and the range demanded of the implementation is the stated closed [-pi, pi]",
+    "bond pairs whose distance is within 1e-9 of (ri+rj)*thr are excluded from generation (the probe stream sits 4e-9 .. 1e-4 from the cutoff on either side); thresholds are positive",
+    "symbols and geometry have equal length; inputs are finite doubles; indices are Python ints; symbols are ASCII str (element symbols in any case, nuclide labels, exact table labels such as C_sp3, unknown strings)",
     "batched inputs have >= 1 row; mixed scalar/batched shapes follow numpy broadcasting (rows 1 vs n)",
     "layout stream: arguments are float64 ndarrays (any strides, possibly aliasing each other, possibly read-only) or nested lists; distance_matrix entries between "
     "two views of the very same buffer row (coincident points, outside the quantifier) are compared with the model only, never demanded by the oracle",
@@ -78,15 +140,23 @@ RULE = (
     "two views of the same rows, disjoint, interleaved P[::2] vs P[1::2], a window vs itself reversed, view vs copy; compute_distance/angle/dihedral on "
     "shifted windows along the chain (P[:-3],P[1:-2],P[2:-1],P[3:] and wider shifts, reversed, interleaved P[j::k], 1-d row views, broadcast "
     "row-view vs window, views mixed with copies and lists); measure_coordinates and guess_connectivity on non-contiguous / reversed / flat-strided "
-    "views; each compared with the textbook value of the resolved points, with the call on independent copies, and with the model). "
+    "views; each compared with the textbook value of the resolved points, with the call on independent copies, and with the model), "
+    "probe (conn tasks of 2-4 atoms in a chain whose consecutive pairs sit 4e-9 .. 1e-4 bohr inside or outside their cutoff (ri+rj)*thr, symbols over the whole table, "
+    "radius-less / unknown symbols, exact table labels (C_sp3, Mn_lowspin, ...), nuclide labels and odd letter case: pins the radius the implementation really uses for each symbol to ~1e-9). "
+    "Every conn / probe / layout-conn task is additionally evaluated by the second driver from the symbols with radii from the regenerated tables, and every distinct symbol's table radius is compared exactly with the implementation's. "
     "A case is distinct by its full input; non-trivial when points are in general position (no coordinate plane symmetry) or an error/bond "
     "branch is hit, and for layout cases when arguments share memory or the carrier is not a fresh writable C array."
 )
 LEVEL_TEXT = (
-    "proof, partial: invariance, sign-flip, reversal, textbook-agreement, exactness of the bond criterion and form agreement are proved for all "
-    "inputs about the algebraic arguments; sqrt/arccos/arctan2/degrees and float rounding are runtime and only differentially checked (1e-9)."
+    "proof, partial: over every (ordered) field, invariance, sign-flip, reversal, textbook-agreement, exactness of the bond criterion and form agreement are proved for all "
+    "inputs about the algebraic arguments; over R (Mathlib sqrt / arccos / Complex.arg) the measurements as coded are proved to lie in [0, inf), [0, pi], (-pi, pi] "
+    "(degrees: * 180/pi, [0, 180], (-180, 180]), to be invariant under every proper rigid motion, to flip sign under reflection (exactly off the dihedral = pi edge, "
+    "modulo 2 pi everywhere), to be unchanged by listing the points backwards and to equal the textbook definitions (arccos of the normalised dot product; the unique "
+    "angle in (-pi, pi] with the IUPAC cosine and sine) for non-degenerate inputs. Partial because: the model is tied to the code by sampled correspondence; libm / IEEE "
+    "rounding of sqrt / arccos / arctan2 / degrees and of the float arithmetic in front of them is run-time only (differential, 1e-9); signed zero and nan are outside the real model. "
+    "Covalent radii are no longer taken from the implementation: they are regenerated from the source data files and checked against the implementation exactly."
 )
-TECHNIQUE = "Lean 4 proof over generic commutative rings / ordered fields + exact-rational differential correspondence"
+TECHNIQUE = "Lean 4 proof over generic commutative rings / ordered fields, lifted over R through Mathlib's sqrt / arccos / arg + exact-rational differential correspondence + regenerated radius tables"
 
 TOL = 1e-9
 TOL_COLLINEAR = 1e-6
@@ -202,7 +272,10 @@ def tb_dihedral(p1, p2, p3, p4):
     return math.atan2(math.sqrt(float(dot(b2, b2))) * float(dot(b1, n2)), float(dot(n1, n2)))
 
 
-# transcendental step on the model's exact arguments
+# transcendental step on the model's exact arguments: libm evaluation of the closed forms proved over R in Props/C18Real.lean
+#   distR = sqrt(d2)                                   (definition of distR; distR_textbook)
+#   angleR = atan2(sqrt(nn - dot^2), -dot)             (angleR_eq_args)
+#   dihedralR = atan2(Y * sqrt(N), XN)                 (dihedralR_eq_args)
 def ev_dist(d2: Fr) -> float:
     return math.sqrt(float(d2))
 
@@ -651,6 +724,66 @@ def conn_line(radii, P, thr, dc):
     return "C|{}|{}|{}".format(rs(F(thr)), "N" if dc is None else rs(F(dc)), ";".join(rs(F(r)) + ":" + pt_s(p) for r, p in zip(radii, P)))
 
 
+def hexs(x: str) -> str:
+    return x.encode("utf-8").hex()
+
+
+_CONV = None
+
+
+def conv_field() -> str:
+    """unit factors towards bohr for every unit the implementation's covalent table carries, read from the implementation
+    (constants.conversion_factor is pint / C03's territory: a parameter of the radius model), `HEXUNIT=p/q;…`"""
+    global _CONV
+    if _CONV is None:
+        import qcelemental as qcel
+
+        items = []
+        for u in sorted({str(d.units) for d in qcel.covalentradii.cr.values()}):
+            try:
+                f = float(qcel.constants.conversion_factor(u, "bohr"))
+            except Exception:  # noqa
+                continue
+            if math.isfinite(f):
+                items.append(f"{hexs(u)}={rs(F(f))}")
+        _CONV = ";".join(items) if items else "-"
+    return _CONV
+
+
+def rad_line(symbols) -> str:
+    return "RAD|{}|{}".format(conv_field(), ";".join(hexs(x) for x in symbols))
+
+
+def conn_sym_line(symbols, P, thr, dc) -> str:
+    return "CS|{}|{}|{}|{}".format(rs(F(thr)), "N" if dc is None else rs(F(dc)), conv_field(), ";".join(hexs(x) + ":" + pt_s(p) for x, p in zip(symbols, P)))
+
+
+def conn_lines2(t):
+    """lines for the second driver (Driver/C18Radii.lean): radii from the regenerated tables"""
+    syms = t["symbols"]
+    P = fpts(unhex(t["geom"]))
+    perm = t["perm"]
+    inv = [perm.index(i) for i in range(len(perm))]
+    return [rad_line(sorted(set(syms))), conn_sym_line(syms, P, t["thr"], t["dc"]),
+            conn_sym_line([syms[inv[i]] for i in range(len(P))], [P[inv[i]] for i in range(len(P))], t["thr"], t["dc"])]
+
+
+def radii_check(t, symbols, rad_out, out: Outcome):
+    """every distinct symbol: the table radius (regenerated from the source, C17's model) == the implementation's, exactly"""
+    toks = rad_out.split(" ")
+    syms = sorted(set(symbols))
+    if toks[0] != "RAD" or len(toks) - 1 != len(syms):
+        MM(out, t, "radii from the regenerated tables: malformed answer", observed=rad_out[:200], expected=len(syms))
+        return
+    for x, tok in zip(syms, toks[1:]):
+        have = F(radius_of(x))
+        if tok == "E" or pr(tok) != have:
+            MM(out, t, f"covalent radius of {x!r} in bohr: implementation (covalentradii.get(s, missing=1.8) / 1.8 on NotAnElementError) vs the table regenerated from the data files through the radius model",
+               observed=float(have), expected=tok if tok == "E" else float(pr(tok)))
+            return
+    out.count("conn:radii_compared_with_table", len(syms))
+
+
 def conn_lines(t):
     P = fpts(unhex(t["geom"]))
     radii = [radius_of(s) for s in t["symbols"]]
@@ -673,7 +806,7 @@ def canon_conn(res, dc):
     return ("C " + " ".join(toks)).strip()
 
 
-def conn_check(t, model, out: Outcome):
+def conn_check(t, model, out: Outcome, model2=None):
     import qcelemental as qcel
 
     gc = qcel.molutil.guess_connectivity
@@ -698,6 +831,9 @@ def conn_check(t, model, out: Outcome):
     exp = brute_bonds(radii, P, thr)
     out.count("conn:n=%d" % n)
     out.count("conn:bonds", len(exp))
+    if t.get("style") == "probe":
+        out.count("conn:probe")
+        out.count("conn:probe:" + ",".join(t["sides"]))
     out.count("conn:thr=%s" % ("default" if t.get("default_thr") else (repr(thr) if thr in THRESHOLDS else "random")))
     # --- oracle: exactly the pairs i<j closer than the scaled radius sum
     if len(set(pairs)) != len(pairs) or set(pairs) != set(exp) or any(i >= j for i, j in pairs):
@@ -735,6 +871,14 @@ def conn_check(t, model, out: Outcome):
     if r3[0] == "ok" and model[3] != canon_conn(list(r3[1]), dc):
         MM(out, t, "guess_connectivity vs model on the relabelled molecule", observed=canon_conn(list(r3[1]), dc)[:300], expected=model[3][:300])
     out.sample({"task": "conn", "symbols": syms, "thr": thr, "impl": ci[:120], "model": model[0][:120]}, limit=12)
+    # --- correspondence from symbols: radii from the tables regenerated from the source tree (second driver)
+    if model2 is None:
+        return
+    radii_check(t, syms, model2[0], out)
+    if model2[1] != ci:
+        MM(out, t, "guess_connectivity vs the model evaluated from the symbols with the regenerated table radii", observed=ci[:300], expected=model2[1][:300])
+    if r3[0] == "ok" and model2[2] != canon_conn(list(r3[1]), dc):
+        MM(out, t, "guess_connectivity vs the model from symbols on the relabelled molecule", observed=canon_conn(list(r3[1]), dc)[:300], expected=model2[2][:300])
 
 
 
@@ -879,7 +1023,15 @@ def lay_differs(fn, got, exp, fac=1.0):
     return not close(got / fac, exp, TOL)
 
 
-def layout_check(t, model, out: Outcome):
+def layout_lines2(t):
+    if t["fn"] != "conn":
+        return []
+    _, _, vals = lay_resolve(t)
+    c = t["conn"]
+    return [conn_sym_line(c["symbols"], fpts(vals[0]), c["thr"], c["dc"])]
+
+
+def layout_check(t, model, out: Outcome, model2=None):
     u = util()
     fn = t["fn"]
     base, args, vals = lay_resolve(t)
@@ -1029,6 +1181,8 @@ def layout_check(t, model, out: Outcome):
         V(out, kind, t, f"bond list is not exactly the pairs under the criterion {how}", observed=pairs[:40], expected=exp[:40])
     if model is not None and model[0] != canon_conn(res, c["dc"]):
         MM(out, t, f"guess_connectivity vs model {how}", observed=canon_conn(res, c["dc"])[:300], expected=model[0][:300])
+    if model2 is not None and model2[0] != canon_conn(res, c["dc"]):
+        MM(out, t, f"guess_connectivity vs the model from symbols with the regenerated table radii {how}", observed=canon_conn(res, c["dc"])[:300], expected=model2[0][:300])
 
 
 TASKS = {
@@ -1038,6 +1192,8 @@ TASKS = {
     "measure": (measure_lines, measure_check),
     "conn": (conn_lines, conn_check),
 }
+# lines for the second driver (radii from the regenerated tables); only tasks that call guess_connectivity have any
+TASKS2 = {"conn": conn_lines2, "layout": layout_lines2}
 
 # --------------------------------------------------------------------------------------
 # generators
@@ -1438,6 +1594,58 @@ def gen_layout(rng, fn):
                 return t
 
 
+PROBE_OFFSETS = [4e-9, 1e-8, 1e-7, 1e-6, 1e-4]
+PROBE_LABELS = ["C_sp3", "C_sp2", "C_sp", "Mn_lowspin", "Mn_highspin", "Fe_lowspin", "Fe_highspin", "Co_lowspin", "Co_highspin"]
+PROBE_ODD = ["X", "Xx", "Zz", "Lr", "Cf", "Es", "Og", "Q", "h", "c", "cL", "NA", "D", "T", "He4", "c13", "U238", "hydrogen", "Carbon"]
+
+
+def gen_probe(rng):
+    """a conn task whose consecutive atoms sit just inside / just outside their cutoff (ri+rj)*thr: the bond list then
+    determines the radius the implementation really uses for each symbol to within the offset (4e-9 .. 1e-4 bohr)"""
+    els = elements()
+
+    def sym():
+        r = rng.random()
+        if r < 0.6:
+            return rng.choice(els)
+        if r < 0.72:
+            return rng.choice(PROBE_LABELS)
+        return rng.choice(PROBE_ODD)
+
+    while True:
+        n = rng.choice([2, 2, 3, 4])
+        syms = [sym() for _ in range(n)]
+        radii = [radius_of(x) for x in syms]
+        thr = rng.choice(THRESHOLDS) if rng.random() < 0.7 else round(rng.uniform(0.5, 2.0), rng.choice([2, 6]))
+        pts = [[rng.uniform(-3, 3) for _ in range(3)]]
+        sides = []
+        for k in range(1, n):
+            c = (radii[k - 1] + radii[k]) * thr
+            side = rng.choice(["in", "out"])
+            off = rng.choice(PROBE_OFFSETS)
+            d = c - off if side == "in" else c + off
+            u = [rng.gauss(0, 1) for _ in range(3)]
+            nrm = math.sqrt(sum(x * x for x in u)) or 1.0
+            pts.append([pts[-1][i] + d * u[i] / nrm for i in range(3)])
+            sides.append(side)
+        if any(abs(x) > 10 for p in pts for x in p):
+            continue
+        P = fpts(pts)
+        if any(dot(sub(P[i], P[j]), sub(P[i], P[j])) < Fr(1, 100) for i in range(n) for j in range(i)):
+            continue
+        mo = gen_motion(rng)
+        if not conn_safe(radii, P, thr) or not conn_safe(radii, fpts(to_floats(apply_motion(mo, P))), thr):
+            continue
+        # the consecutive pairs must really be on the intended side (exact test)
+        bonds = set(brute_bonds(radii, P, thr))
+        if any(((k - 1, k) in bonds) != (sides[k - 1] == "in") for k in range(1, n)):
+            continue
+        perm = list(range(n))
+        rng.shuffle(perm)
+        return {"kind": "conn", "style": "probe", "sides": sides, "symbols": syms, "geom": hexpts(pts), "thr": thr, "default_thr": False,
+                "dc": rng.choice([None, None, 1.0]), "motion": mo, "perm": perm, "flat": rng.random() < 0.3}
+
+
 def fixed_tasks():
     """hand-written regression inputs (always run first)"""
     T = []
@@ -1477,6 +1685,9 @@ def gen_tasks(ctx: Ctx):
     for fn, nq, nt in (("dm", 700, 3500), ("dist", 300, 1500), ("angle", 300, 1500), ("dihedral", 400, 2000), ("measure", 250, 1250), ("conn", 250, 1250)):
         for _ in range(ctx.scale(nq, nt)):
             T.append(gen_layout(rng, fn))
+    # cutoff-edge probes (generated after everything else, same reason)
+    for _ in range(ctx.scale(1500, 7500)):
+        T.append(gen_probe(rng))
     return T
 
 
@@ -1485,22 +1696,37 @@ def gen_tasks(ctx: Ctx):
 
 def evaluate(ctx: Ctx, tasks, out: Outcome):
     all_lines, spans = [], []
+    all_lines2, spans2 = [], []
     for t in tasks:
         ls = TASKS[t["kind"]][0](t)
         spans.append((len(all_lines), len(ls)))
         all_lines += ls
-    model = None
+        ls2 = TASKS2[t["kind"]](t) if t["kind"] in TASKS2 else []
+        spans2.append((len(all_lines2), len(ls2)))
+        all_lines2 += ls2
+    model = model2 = None
     if ctx.model_available:
         model = ctx.run_model(DRIVER, all_lines)
         nbad = sum(1 for m in model if m == "bad-op")
         if nbad:
             out.mismatches.append(Finding("mismatch", {"task": None}, observed=f"{nbad} bad-op lines", detail="driver rejected generated lines"))
-    for t, (a, k) in zip(tasks, spans):
+        model2 = ctx.run_model(DRIVER_RADII, all_lines2)
+        nbad = sum(1 for m in model2 if m == "bad-op")
+        if nbad:
+            out.mismatches.append(Finding("mismatch", {"task": None}, observed=f"{nbad} bad-op lines", detail="radii driver rejected generated lines"))
+    for t, (a, k), (a2, k2) in zip(tasks, spans, spans2):
         ml = model[a : a + k] if model is not None else None
         if ml is not None and any(m == "bad-op" for m in ml):
             ml = None
-        TASKS[t["kind"]][1](t, ml, out)
+        if k2:
+            ml2 = model2[a2 : a2 + k2] if model2 is not None else None
+            if ml2 is not None and any(m == "bad-op" for m in ml2):
+                ml2 = None
+            TASKS[t["kind"]][1](t, ml, out, ml2)
+        else:
+            TASKS[t["kind"]][1](t, ml, out)
     out.count("driver_lines", len(all_lines))
+    out.count("radii_driver_lines", len(all_lines2))
 
 
 def run(ctx: Ctx) -> Outcome:
@@ -1511,7 +1737,9 @@ def run(ctx: Ctx) -> Outcome:
     out.notes.append("all streams sampled from VERIF_SEED; 7 hand-written regression tasks run first")
     out.notes.append("layout stream: distribution keys layout:<fn>:<mode>, layout:carrier:<memory layout>[:readonly], layout:arguments_share_memory, "
                      "layout:<fn>:distinct_equal_shape_overlapping_views (two different, equally shaped, memory-overlapping views — e.g. distance_matrix(P[:-1], P[1:]))")
-    out.notes.append("transcendental step (sqrt/arccos/arctan2/degrees) evaluated in Python on the model's exact rational arguments; tolerance 1e-9 (1e-6 on exactly collinear triples)")
+    out.notes.append("transcendental step: the closed forms proved in Props/C18Real.lean (distR = sqrt d2; angleR_eq_args; dihedralR_eq_args) evaluated in Python (libm) on the model's exact rational arguments; tolerance 1e-9 (1e-6 on exactly collinear triples)")
+    out.notes.append("radii: every conn / probe / layout-conn task is also evaluated from its symbols by Driver/C18Radii.lean with radii from Gen/Radii.lean + Gen/PT.lean (regenerated from the source tree before the build); "
+                     "conn:radii_compared_with_table counts exact radius comparisons, conn:probe:<sides> the cutoff-edge probes")
     return out
 
 
